@@ -31,8 +31,11 @@ import DesperModel.Proto
       state (its frame), which survives kill/start.
     * times are `Int` in units of 1/8 s (the harness feeds `k/8.0`, exact in binary).
 
+  A step may also end in `raise X`: the exception leaves `next`, `process` is abandoned where it
+  stands (`Outcome.crashed X`, distinct from `Outcome.raised`, which is reserved for exceptions of
+  the bookkeeping itself) and the caller may go on calling `process`.
   Out of scope (stated in the plug-ins' ASSUMPTIONS): bodies that call `process` recursively,
-  bodies that raise, yielding non-numbers.
+  yielding non-numbers.
 -/
 namespace Desper.Coro
 open Desper
@@ -48,6 +51,9 @@ deriving Repr, DecidableEq, Inhabited
 inductive Fin where
   | yield (w : Option Int)
   | ret (v : Option Int)
+  /-- the body leaves with an exception that is not StopIteration (`desper.Quit`, `SwitchWorld`
+  from `quit_loop()` / `switch()`, or any error) -/
+  | raise (e : String)
 deriving Repr, DecidableEq, Inhabited
 
 structure Step where
@@ -69,6 +75,8 @@ inductive Outcome where
   | raised (e : String)
   | state (c : CState)
   | outOfFuel
+  /-- an exception raised by a generator body propagated out of `process` -/
+  | crashed (e : String)
 deriving Repr, DecidableEq, Inhabited
 
 /-- `_WaitingGenerator` : coroutines.py:52-60 -/
@@ -86,6 +94,8 @@ inductive Entry where
   /-- `g` returned `v`, stored in promise `p` (none: no promise was found) -/
   | returned (g : Gen) (v : Option Int)
   | stored (g : Gen) (p : Nat) (v : Option Int)
+  /-- the body of `g` raised `e` -/
+  | crashed (g : Gen) (e : String)
   /-- a successful `start` (handing out promise `p`) / `kill`, from outside or from a body -/
   | started (g : Gen) (p : Nat)
   | killed (g : Gen)
@@ -190,6 +200,8 @@ def execActs (U : Universe) (g : Gen) (i : Nat) (s : St) (acts : List Act) : St 
 inductive Next where
   | yield (w : Option Int)
   | stop (v : Option Int)
+  /-- any other exception: it propagates out of `next` and out of `process` -/
+  | crash (e : String)
 deriving Repr, DecidableEq, Inhabited
 
 /-- `next(gen)` on the generator object `g` -/
@@ -205,6 +217,8 @@ def runBody (U : Universe) (s : St) (g : Gen) : St × Next :=
       match st.fin with
       | .yield w => (s.push (.yielded g w), .yield w)
       | .ret v => ({ s with fin := upd s.fin g true, log := .returned g v :: s.log }, .stop v)
+      -- a generator object that raised is finished: later `next` calls give StopIteration(None)
+      | .raise e => ({ s with fin := upd s.fin g true, log := .crashed g e :: s.log }, .crash e)
 
 /-! ### process : coroutines.py:199-262 -/
 
@@ -275,6 +289,9 @@ inductive Iter where
   | exit
   | next (s : St)
   | raise (s : St) (e : String)
+  /-- the body raised: `process` is left at once, the tables stay as they are (the generator that
+  raised is still in front of the deque, the sentinel is not) -/
+  | crash (s : St) (e : String)
 
 /-- one iteration of `while self._active_queue[0] is not None` : coroutines.py:234-262 -/
 def iter (U : Universe) (s : St) : Iter :=
@@ -309,6 +326,7 @@ def iter (U : Universe) (s : St) : Iter :=
               .next { s with values := fun q => if q = p then v else s.values q,
                              promises := upd s.promises g' none,
                              log := .stored g' p v :: s.log }   -- :251-252
+      | (s, .crash e) => .crash s e                  -- :246 not a StopIteration: propagates
       | (s, .yield w) =>
         if positive w then                           -- :256
           let d := w.getD 0 + s.timer                -- :257
@@ -325,6 +343,7 @@ def loop (U : Universe) : Nat → St → St × Outcome
     match iter U s with
     | .exit => (s, .ok)
     | .raise s e => (s, .raised e)
+    | .crash s e => (s, .crashed e)
     | .next s => loop U fuel s
 
 /-- `process` : coroutines.py:199-262 -/
@@ -367,6 +386,10 @@ def hasCode (U : Universe) (s : St) (g : Gen) : Prop :=
 
 instance (U : Universe) (s : St) (g : Gen) : Decidable (hasCode U s g) := by
   unfold hasCode; infer_instance
+
+/-- no body of the program ever leaves with an exception -/
+class NoRaise (U : Universe) : Prop where
+  out : ∀ g sc, U.script g = some sc → ∀ st ∈ sc, ∀ e, st.fin ≠ .raise e
 
 /-- the step that `next(g)` would execute now -/
 def curStep (U : Universe) (s : St) (g : Gen) : Option Step :=
@@ -447,6 +470,7 @@ def parseStep (toks : List String) : Option Step :=
       match last with
       | ["yield", w] => (optInt? w).map fun w => ⟨acts, .yield w⟩
       | ["ret", v] => (optInt? v).map fun v => ⟨acts, .ret v⟩
+      | ["raise", e] => some ⟨acts, .raise e⟩
       | _ => none
 
 def parseScript (toks : List String) : Option Script :=
@@ -510,6 +534,7 @@ def showOutcome : Outcome → String
   | .raised e => s!"raised {e}"
   | .state c => showCState c
   | .outOfFuel => "hang"
+  | .crashed e => s!"raised {e}"
 
 def showAct : Act → String
   | .start g => s!"start {g}"
